@@ -33,6 +33,9 @@ MODULE_OF = {
 }
 
 _H = {}
+# CBMC option that lets symex constant-propagate reads from small heap objects (the arena id table): without it
+# the slot number read back from the table is symbolic and every later field access is a symbolic-offset access
+FS = "-Z unstable-options --cbmc-args --max-field-sensitivity-array-size 4096"
 
 
 def H(pid, file, name, tier="quick", mem="light", tq=300, tt=1800, deep=False, expect="pass",
@@ -81,3 +84,81 @@ H("C20", "hpotermid", "c20_parse_seven_digits_is_value", bounds="all 10^7 seven-
 H("C20", "hpotermid", "c20_bytes_roundtrip_all_u32", bounds="all u32 / all [u8;4]", inputs="u32, [u8;4], u16, u32")
 H("C20", "hpotermid", "c20_annotation_ids_bytes_all_u32", bounds="all u32", inputs="u32")
 H("C20", "hpotermid", "c20_twin_must_fail", expect="fail")
+
+# ------------------------------------------------------------------------------------------------
+# C12
+# ------------------------------------------------------------------------------------------------
+PROPERTIES["C12"] = dict(
+    functions=["HpoGroup::insert/contains/len/is_empty/get/iter/as_bytes", "From<Vec<HpoTermId>>, From<Vec<u32>>, FromIterator<HpoTermId> for HpoGroup",
+               "BitOr/BitAnd for &HpoGroup and owned variants", "BitOr<HpoTermId>, Add<HpoTermId>",
+               "HpoTerm::{common,all_common,union,all_union}_ancestor_ids"],
+    bounds="<= 5 arbitrary-u32 insertions (plus one inductive insert step from any sorted group of 3/5 ids); operands = all subsets of a "
+           "strictly ascending symbolic-u32 universe of 3, 4 or 6 ids; groups never exceed 6 elements (shim capacity); unwind 8-9",
+    stubs=[],
+    outside="groups with more than 6 elements, in particular smallvec's inline->heap switch at 30 (smallvec's own code, replaced by the shim); From<HashSet>",
+    assumptions=["operands of |, & are valid groups (strictly ascending) - the representation invariant established by insert"],
+)
+for k in (1, 2, 3):
+    H("C12", "group", "c12_insert_%d" % k, bounds="%d arbitrary u32 inserts" % k, inputs="[u32;%d], probe u32" % k)
+for k in (4, 5):
+    H("C12", "group", "c12_insert_%d" % k, tier="thorough", mem="medium", bounds="%d arbitrary u32 inserts" % k, inputs="[u32;%d], probe u32" % k)
+H("C12", "group", "c12_insert_step_from_3", bounds="any sorted group of 3 u32 + 1 insert", inputs="[u32;3] ascending, x, probe")
+H("C12", "group", "c12_insert_step_from_5", bounds="any sorted group of 5 u32 + 1 insert", inputs="[u32;5] ascending, x, probe")
+H("C12", "group", "c12_from_vec_termid_3", bounds="3 arbitrary ids", inputs="[u32;3]")
+H("C12", "group", "c12_from_vec_u32_3", bounds="3 arbitrary ids", inputs="[u32;3]")
+H("C12", "group", "c12_from_iter_termid_3", bounds="3 arbitrary ids", inputs="[u32;3]")
+H("C12", "group", "c12_algebra_universe3", bounds="all 8x8 subset pairs of an ascending symbolic universe of 3", inputs="[u32;3], 2 masks")
+H("C12", "group", "c12_bitor_universe4", mem="medium", tq=900, bounds="all 16x16 subset pairs, universe of 4", inputs="[u32;4], 2 masks")
+H("C12", "group", "c12_bitand_universe4", mem="medium", tq=900, bounds="all 16x16 subset pairs, universe of 4", inputs="[u32;4], 2 masks")
+H("C12", "group", "c12_bitor_universe6", tier="thorough", mem="heavy", tt=3600, deep=True, bounds="all 64x64 subset pairs, universe of 6")
+H("C12", "group", "c12_bitand_universe6", tier="thorough", mem="heavy", tt=3600, deep=True, bounds="all 64x64 subset pairs, universe of 6")
+H("C12", "group", "c12_add_single_id", bounds="all subsets of universe 4 + arbitrary u32", inputs="[u32;4], mask, u32")
+H("C12", "group", "c12_owned_operands", bounds="all subset pairs of universe 3, 4 owned-operand impls")
+H("C12", "group", "c12_as_bytes", bounds="all subsets of universe 3")
+H("C12", "group", "c12_shim_differential_vs_vec", bounds="4 inserts at arbitrary positions + 1 push, shim vs Vec")
+H("C12", "group", "c12_twin_must_fail", expect="fail")
+H("C12", "hpoterm", "c12_ancestor_algebra_u2", mem="medium", tq=900, bounds="two terms, own ids any u32, ancestor sets = any subsets of an ascending symbolic universe of 2; probe id any u32")
+H("C12", "hpoterm", "c12_ancestor_algebra_u3", mem="heavy", tq=1500, bounds="same, universe of 3")
+H("C12", "hpoterm", "c12_ancestor_algebra_u4", tier="thorough", mem="heavy", tt=3600, deep=True, bounds="same, universe of 4")
+
+# ------------------------------------------------------------------------------------------------
+# C10
+# ------------------------------------------------------------------------------------------------
+PROPERTIES["C10"] = dict(
+    functions=["Arena::insert/get/get_mut/get_unchecked/get_unchecked_mut/len/keys/values/iter"],
+    bounds="id table of 16 (8) entries instead of 10^7; inserts with symbolic ids < 16 observed through the table; lookup key = any u32 on a table holding ids {0,3,9}; unwind 18",
+    stubs=["std::hash::RandomState::new -> fixed keys (term structs own empty HashSets)"],
+    outside="the real 10^7-entry table (18 GB in CBMC); gene/disease lookups (std HashMap::get, trusted); gene_by_name / disease name search "
+            "(hash-map iteration + substring search)",
+    assumptions=["inserted ids are below the id-table size (insert of an id >= table size panics on index: documented limit 10^7)"],
+)
+H("C10", "termarena", "c10_arena_get_any_key", mem="medium", tq=900, bounds="table 16 holding ids {0,3,9}; key = any u32", inputs="key u32")
+H("C10", "termarena", "c10_arena_insert_one_symbolic_id", mem="heavy", tq=1200, bounds="table 16 holding id 3; insert of a symbolic id < 16", inputs="i2 < 16, j < 16")
+H("C10", "termarena", "c10_arena_insert_symbolic_ids", tier="thorough", mem="heavy", tt=3600, bounds="table 16; two inserts with symbolic ids < 16", inputs="i1,i2 < 16, j < 16")
+H("C10", "termarena", "c10_arena_iteration", mem="medium", tq=900, bounds="3 concrete inserts; keys/values/iter/len")
+H("C10", "termarena", "c10_arena_empty_any_key", bounds="empty arena, any u32 key", inputs="key u32")
+H("C10", "termarena", "c10_arena_unchecked_agrees", mem="medium", tq=900, bounds="table 8 with 3 terms, symbolic choice of present id", inputs="sel < 3")
+H("C10", "termarena", "c10_id_space_constant")
+H("C10", "termarena", "c10_twin_must_fail", expect="fail")
+
+# ------------------------------------------------------------------------------------------------
+# C19
+# ------------------------------------------------------------------------------------------------
+PROPERTIES["C19"] = dict(
+    functions=["Ontology::set_default_modifier", "Ontology::set_default_categories", "HpoTerm::is_modifier", "HpoTerm::categories", "Ontology::hpo"],
+    bounds="direct-state ontology (id table 128 / 16); children(HP:1) = any subset of 4 ids, children(HP:118) = any subset of 3 ids, presence of either root "
+           "symbolic; probe term with any ancestor subset of 4 ids and any modifier/category subset of 4 ids; unwind 8",
+    stubs=["std::hash::RandomState::new -> fixed keys", "Arena::default() replaced by small_arena (direct construction)"],
+    outside="that loaders reach build_with_defaults with a correct ancestor closure (C01/C09 limits); more than 4 top-level branches",
+    assumptions=["ancestor sets of the probe term are given (closure correctness is C01)"],
+)
+H("C19", "ontology", "c19_default_modifier_present", mem="medium", tq=900, args=FS, bounds="children(HP:1) = any subset of {5,6,118,120}; stale modifier group symbolic")
+H("C19", "ontology", "c19_default_modifier_absent", mem="medium", tq=900, args=FS, bounds="HP:1 absent (another term present)")
+H("C19", "ontology", "c19_default_categories_present", mem="medium", tq=900, args=FS, bounds="children(1) subset of {5,7,118,120}, children(118) subset of {7,9,120}")
+H("C19", "ontology", "c19_default_categories_no_root", mem="medium", tq=900, args=FS, bounds="HP:1 absent")
+H("C19", "ontology", "c19_default_categories_no_phenotype_root", mem="medium", tq=900, args=FS, bounds="HP:118 absent")
+H("C19", "hpoterm", "c19_is_modifier_u3", mem="medium", tq=900, bounds="own id any u32; ancestors, modifier roots = any subsets of an ascending symbolic universe of 3")
+H("C19", "hpoterm", "c19_is_modifier_u4", tier="thorough", mem="heavy", tt=3600, deep=True, bounds="same, universe of 4")
+H("C19", "hpoterm", "c19_term_categories_u2", mem="medium", tq=900, bounds="own id any u32; ancestors, categories = any subsets of an ascending symbolic universe of 2")
+H("C19", "hpoterm", "c19_term_categories_u3", tier="thorough", mem="heavy", tt=3600, deep=True, bounds="same, universe of 3")
+H("C19", "ontology", "c19_twin_must_fail", expect="fail", args=FS)
